@@ -31,6 +31,7 @@ for m in repo.modules.values():
                 out[keys[q]]['t'] = sorted(set(ts))
 import hashlib
 out['__funcs__'] = {m.rel(): sorted(alpha.def_table(m.tree, m.name)) for m in repo.modules.values()}
+out['__nested__'] = {m.rel(): sorted(alpha.nested_table(m.tree, m.name)) for m in repo.modules.values()}
 out['__modules__'] = {m.rel(): hashlib.sha1(m.src.encode()).hexdigest() for m in repo.modules.values()}
 os.makedirs(os.path.join(HERE, 'baseline'), exist_ok=True)
 with gzip.open(alpha.BASEFILE, 'wt') as fh:
